@@ -39,9 +39,12 @@ def write_genome_db(path, taxa, genomes, gset_kw=None):
 		tobjs.append(Taxon(
 			key=t.get('key', f'tax{i}'), name=t['name'], rank=t.get('rank'), description=t.get('description'),
 			distance_threshold=t.get('thr'), report=t.get('report', True), ncbi_id=t.get('ncbi_id'),
-			parent=None if t.get('parent') is None else tobjs[t['parent']], genome_set=gset, extra=t.get('extra'),
+			genome_set=gset, extra=t.get('extra'),
 		))
 		session.add(tobjs[-1])
+	for i, t in enumerate(taxa):
+		if t.get('parent') is not None:
+			tobjs[i].parent = tobjs[t['parent']]        # second pass: a parent may come later in the list
 	for j, g in enumerate(genomes):
 		genome = Genome(key=g['key'], description=g.get('description', g['key']), ncbi_db=g.get('ncbi_db'), ncbi_id=g.get('ncbi_id'),
 		                genbank_acc=g.get('genbank_acc'), refseq_acc=g.get('refseq_acc'))
